@@ -11,8 +11,10 @@ import (
 	"database/sql"
 	"fmt"
 	"os"
+	"os/exec"
 	"path/filepath"
 	"runtime"
+	"strconv"
 	"strings"
 	"sync"
 	"sync/atomic"
@@ -1041,7 +1043,10 @@ func replay(cf *evid.CaseFile) error {
 		if err := evid.Decode(cf.Gob, &c); err != nil {
 			return err
 		}
-		return firstOracle(&c)
+		if err := firstOracle(&c); err != nil {
+			return err
+		}
+		return firstInChildren(&c, 6)
 	}
 	if cf.Sub == "cancel" {
 		var c CancelCase
@@ -1158,10 +1163,62 @@ func firstOracle(c *FirstCase) error {
 	return nil
 }
 
+// TestFirstUseChild is the body of the child processes started by runFirst.
+func TestFirstUseChild(t *testing.T) {
+	n, _ := strconv.Atoi(os.Getenv("VERIF_FIRSTUSE_CHILD"))
+	if n == 0 {
+		t.Skip("only run as a child of runFirst")
+	}
+	if err := firstOracle(&FirstCase{Goroutines: n}); err != nil {
+		fmt.Printf("FIRST-USE-FAILS: %v\n", err)
+		os.Exit(67)
+	}
+}
+
+// firstInChildren repeats the first-use case in fresh processes (a process
+// has only one first moment; whether two goroutines really meet in it depends
+// on the load of the machine).
+func firstInChildren(c *FirstCase, children int) error {
+	for k := 0; k < children; k++ {
+		cmd := exec.Command(os.Args[0], "-test.run", "^TestFirstUseChild$", "-test.count=1")
+		for _, e := range os.Environ() {
+			if !strings.HasPrefix(e, "VERIF_EVID_OUT=") && !strings.HasPrefix(e, "VERIF_REPLAY_FILE=") {
+				cmd.Env = append(cmd.Env, e)
+			}
+		}
+		cmd.Env = append(cmd.Env, fmt.Sprintf("VERIF_FIRSTUSE_CHILD=%d", c.Goroutines))
+		done := make(chan struct{})
+		var out []byte
+		var err error
+		go func() { out, err = cmd.CombinedOutput(); close(done) }()
+		select {
+		case <-done:
+		case <-time.After(120 * time.Second):
+			if cmd.Process != nil {
+				cmd.Process.Kill()
+			}
+			<-done
+			panic("INFRA: first-use child process did not finish within 120 s")
+		}
+		if err != nil {
+			txt := string(out)
+			if len(txt) > 3000 {
+				txt = txt[:3000]
+			}
+			return fmt.Errorf("fresh process %d whose first %d queries are issued at the same moment fails (%v):\n%s", k, c.Goroutines, err, txt)
+		}
+	}
+	return nil
+}
+
 func runFirst(t *testing.T, c *FirstCase) {
 	evid.Inflight(prop, "first-use", c, c.Summary())
 	err := firstOracle(c)
 	evid.ClearInflight(prop, "first-use")
+	if err == nil && os.Getenv("VERIF_REPLAY_FILE") == "" {
+		err = firstInChildren(c, 6)
+		evid.Note("fresh_processes_started_for_first_use", 6)
+	}
 	if err != nil && strings.HasPrefix(err.Error(), "INFRA:") {
 		panic(err.Error())
 	}
